@@ -41,6 +41,11 @@ Sets ==
     s11 |-> <<DQuery, DA, DB, DN, FXIface>>,
     \* invalid: the roots made up from the type names are no schema block, a schema extension has nothing to extend
     s12 |-> <<DQ1, DA1, DE, DMut2, XSchemaMut>>,
+    \* input object defaults that pull in other input objects' defaults (what a request resolves to depends on them)
+    s13 |-> << ObjectD("Query", <<>>, <<FieldD("f", S, <<ArgD("o", Named("Outer"))>>), FieldD("g", S, <<ArgDD("o", Named("Outer"), V("obj", [x \in {} |-> 0]))>>),
+                                         FieldD("h", S, <<ArgD("l", ListOf(Named("Opts")))>>)>>),
+               InputD("Outer", <<ArgDD("opts", Named("Opts"), V("obj", [x \in {} |-> 0])), ArgDD("n", I, IntV(3))>>),
+               InputD("Opts", <<ArgDD("a", I, IntV(1)), ArgDD("b", I, IntV(2))>>) >>,
     s6 |-> <<DQ1, DA1, DE, FIface, DN>>,          \* invalid: Z does not provide N.name
     s7 |-> <<DQ1, DA1, FInOut, DE>> ]              \* invalid: input field of object type
 
